@@ -20,9 +20,12 @@ SKIP = O.BOOKKEEPING_TABLES + ('django_content_type',)
 
 
 def base_project():
-    return P(A('va', [M('Alpha', [F('a', 'Char', max_length=20)]),
+    return P(A('va', [M('Alpha', [F('a', 'Char', max_length=20),
+                                  F('i', 'Int', null=True, db_index=True)]),
                       M('Beta', [F('b', 'Int', null=True)]),
-                      M('Gamma', [F('c', 'Char', max_length=20)])]))
+                      M('Gamma', [F('c', 'Char', max_length=20),
+                                  F('d', 'Int', null=True, db_index=True)])
+                      ]))
 
 
 def programs(depth):
@@ -38,6 +41,10 @@ def programs(depth):
                                              'name': 'ix_c'}]],
         ['RenameField', 'Beta', 'b', 'bb', {}],
         ['DeleteModel', 'Gamma'],
+        # index / constraint REMOVAL (needs the index state of the right
+        # database)
+        ['ChangeField', 'Alpha', 'i', {'db_index': False}, None, None],
+        ['ChangeField', 'Gamma', 'd', {'db_index': False}, None, None],
     ]
     out = []
     proj = base_project()
@@ -146,9 +153,15 @@ def run_case(assign, steps, order, stats, add, custom=False, fallback=None):
         hist.install(0)
         for al in DBS:
             B.fresh_db(al)
-        for al in DBS:
+        for al in order:
+            other = [x for x in DBS if x != al][0]
+            before_other = B.snapshot(other)
             res = evolve_db(al)
             stats['runs'] += 1
+            if B.snapshot(other) != before_other:
+                add('C16|other-database-modified|install|%s' % split, replay,
+                    {'evolving': al,
+                     'tables_in_other': O.list_tables(other)[:6]})
             if not res.ok:
                 add('C16|install-fails|%s|%s' % (res.exc_type, split),
                     replay, {'db': al, 'error': str(res.exc)[:300]})
